@@ -45,7 +45,7 @@ def post_roi(args, kw, res, exc, snap):
         return _mon.skip("compute_reproject_roi", "GCP geobox")
     H, W = src.shape
     ny, nx = dst.shape
-    if 0 in (H, W, ny, nx) or ny * nx > 300000 or H * W > 300000:
+    if 0 in (H, W, ny, nx) or ny * nx > 300000:  # the brute force runs over destination pixels only
         return _mon.skip("compute_reproject_roi", "empty or too large for brute force")
     same = src.crs == dst.crs
     wit = lambda extra=None: {"src": gen.gbox_desc(src), "dst": gen.gbox_desc(dst), "padding": padding, "align": align,
@@ -174,7 +174,7 @@ def drive(mon: Monitor, rng: random.Random, n_same: int, n_cross: int) -> None:
         if r.random() < 0.4:
             kw["padding"] = r.choice([0, 1, 3])
         if r.random() < 0.3:
-            kw["align"] = r.choice([4, 16])
+            kw["align"] = r.choice([4, 16, 1, 2, 8])
         if r.random() < 0.1:
             kw["ttol"] = 0.01
         mon.obs[f"generated_same|{kind}"] += 1
@@ -189,7 +189,7 @@ def drive(mon: Monitor, rng: random.Random, n_same: int, n_cross: int) -> None:
         if r.random() < 0.25:
             kw["padding"] = r.choice([1, 3])
         if r.random() < 0.2:
-            kw["align"] = r.choice([4, 16])
+            kw["align"] = r.choice([4, 16, 1, 2, 8])
         mon.obs[f"generated_cross|{place}"] += 1
         call(compute_reproject_roi, src, dst, **kw)
 
@@ -209,9 +209,30 @@ def curvature_probes(mon: Monitor) -> None:
         (GeoBox((300, 260), Affine(1000, 0, 350_000, 0, -1000, 6_800_000), "EPSG:32633"), GeoBox((520, 520), Affine(1500, 0, 4_200_000, 0, -1500, 4_500_000), "EPSG:3035")),
     ]
     for src, dst in P:
-        for kw in ({}, {"padding": 0}, {"padding": 2, "align": 16}):
+        # align alone (default padding) leaves the least slack around the point envelope: the margin must still be there
+        for kw in ({}, {"padding": 0}, {"padding": 2, "align": 16}, {"align": 1}, {"align": 8}, {"padding": 1, "align": 2}):
             call(compute_reproject_roi, src, dst, **kw)
             mon.obs["curvature_probes"] += 1
+
+
+def reverse_curvature_probes(mon: Monitor) -> None:
+    """The other way round: a wide destination strip inside a finer, larger source, so that the destination's edges are curved in *source* pixel space with
+    the extremum between the boundary samples (0.5 source px here).  Default padding only: the margin exists for exactly this."""
+    from affine import Affine
+    from odc.geo.geobox import GeoBox
+    from odc.geo.overlap import compute_reproject_roi
+
+    Q = [
+        # fine destination pixels (centres 200 m from the edge), thin strips to keep the brute force small
+        (GeoBox((3500, 4500), Affine(0.01, 0, 110.0, 0, -0.01, -10.0), "EPSG:4326"), GeoBox((60, 3000), Affine(400, 0, -150_000.0, 0, -400, -3_000_000.0), "EPSG:3577")),
+        (GeoBox((3500, 4500), Affine(0.01, 0, 110.0, 0, -0.01, -9.97), "EPSG:4326"), GeoBox((60, 3000), Affine(400, 0, -150_000.0, 0, -400, -3_276_000.0), "EPSG:3577")),
+        (GeoBox((3000, 4500), Affine(0.01, 0, -10.0, 0, -0.01, 65.0), "EPSG:4326"), GeoBox((60, 3000), Affine(400, 0, 4_100_000.0, 0, -400, 3_300_000.0), "EPSG:3035")),
+        (GeoBox((3000, 4500), Affine(0.01, 0, -10.0, 0, -0.01, 65.0), "EPSG:4326"), GeoBox((60, 3000), Affine(400, 0, 4_100_000.0, 0, -400, 3_000_000.0), "EPSG:3035")),
+    ]
+    for src, dst in Q:
+        for kw in ({}, {"align": 1}, {"align": 8}, {"padding": 1, "align": 2}, {"padding": 3, "align": 8}):
+            call(compute_reproject_roi, src, dst, **kw)
+            mon.obs["reverse_curvature_probes"] += 1
 
 
 def run(mon: Monitor, tier: str, seed: int, shard: int, nshards: int) -> None:
@@ -221,6 +242,7 @@ def run(mon: Monitor, tier: str, seed: int, shard: int, nshards: int) -> None:
         q = tier == "quick"
         if shard == 0:
             curvature_probes(mon)
+            reverse_curvature_probes(mon)
         drive(mon, rng, 3500 if q else 60000, 500 if q else 8000)
         mon.notes["indirect"] = "compute_reproject_roi has no caller inside odc-geo at this commit (it is public API for loaders); only direct calls are observed"
         for pt, n in [("compute_reproject_roi", 2500), ("compute_reproject_roi|same-crs|contained", 100), ("compute_reproject_roi|same-crs|partial", 300), ("compute_reproject_roi|same-crs|disjoint", 100),
